@@ -24,9 +24,10 @@ const (
 	KPub
 	KPubCtx
 	KPubCancelled
+	KPubAny // PublishContext[any]: routed by the dynamic type, i.e. the same as KPubCtx
 )
 
-var kindNames = []string{"Sub", "Unsub", "Clear", "ClearAll", "Pub", "PubCtx", "PubCancelled"}
+var kindNames = []string{"Sub", "Unsub", "Clear", "ClearAll", "Pub", "PubCtx", "PubCancelled", "PubAny"}
 
 const maxNest = 2
 const maxPerType = 4
@@ -93,7 +94,7 @@ func (o Op) Generic() string {
 	switch o.K {
 	case KSub:
 		return "Sub[" + optString(o.O) + "," + scriptNames[o.Script] + "]"
-	case KPub, KPubCtx, KPubCancelled:
+	case KPub, KPubCtx, KPubCancelled, KPubAny:
 		par := "even"
 		if o.Val%2 == 1 {
 			par = "odd"
@@ -225,7 +226,7 @@ func (m *Model) do(o Op, depth int, ob *Obs) int {
 		m.regs[o.Ty] = nil
 	case KClearAll:
 		m.regs = [3][]reg{}
-	case KPub, KPubCtx, KPubCancelled:
+	case KPub, KPubCtx, KPubCancelled, KPubAny:
 		m.publish(o.Ty, o.Val, o.K == KPubCancelled, depth, ob)
 	}
 	return 0
@@ -331,7 +332,7 @@ func alphaOptions() []Op {
 		l = append(l, sub(0, 1, o))
 	}
 	l = append(l, unsub(0, 0), unsub(0, 1), unsubCtx(0, 0), unsubCtx(0, 1), Op{K: KClear, Ty: 0}, Op{K: KClearAll},
-		pub(0, 1), pub(0, 2), Op{K: KPubCtx, Ty: 0, Val: 2}, Op{K: KPubCancelled, Ty: 0, Val: 2})
+		pub(0, 1), pub(0, 2), Op{K: KPubCtx, Ty: 0, Val: 2}, Op{K: KPubCancelled, Ty: 0, Val: 2}, Op{K: KPubAny, Ty: 0, Val: 2})
 	return l
 }
 
@@ -354,6 +355,11 @@ func alphaCollisions() []Op {
 	l = append(l, Op{K: KClearAll})
 	for ty := 0; ty < 3; ty++ {
 		l = append(l, pub(ty, 2))
+	}
+	// the same publishes through an interface-typed type parameter: one static type,
+	// several dynamic ones
+	for ty := 0; ty < 3; ty++ {
+		l = append(l, Op{K: KPubAny, Ty: ty, Val: 2})
 	}
 	return l
 }
@@ -401,8 +407,8 @@ func searches(thorough bool) []searchCfg {
 	if thorough {
 		return []searchCfg{
 			{Name: "full", Alpha: alphaFull(), Depth: 4},
-			{Name: "options", Alpha: alphaOptions(), Depth: 5},
-			{Name: "collisions", Alpha: alphaCollisions(), Depth: 6},
+			{Name: "options", Alpha: alphaOptions(), Depth: 5, PairDepth: 3},
+			{Name: "collisions", Alpha: alphaCollisions(), Depth: 6, PairDepth: 4},
 			{Name: "reentrant", Alpha: alphaReentrant(), Depth: 5},
 			{Name: "options-seeded", Alpha: alphaOptions(), Depth: 3, Seeds: seeds()},
 			{Name: "reentrant-seeded", Alpha: alphaReentrant(), Depth: 4, Seeds: seeds()},
@@ -410,8 +416,8 @@ func searches(thorough bool) []searchCfg {
 	}
 	return []searchCfg{
 		{Name: "full", Alpha: alphaFull(), Depth: 3},
-		{Name: "options", Alpha: alphaOptions(), Depth: 4},
-		{Name: "collisions", Alpha: alphaCollisions(), Depth: 5},
+		{Name: "options", Alpha: alphaOptions(), Depth: 4, PairDepth: 2},
+		{Name: "collisions", Alpha: alphaCollisions(), Depth: 5, PairDepth: 3},
 		{Name: "reentrant", Alpha: alphaReentrant(), Depth: 4},
 		{Name: "reentrant-seeded", Alpha: alphaReentrant(), Depth: 3, Seeds: seeds()},
 	}
